@@ -148,12 +148,10 @@ class _PendingCompoundStmt(PendingNode[T]):
                 stack.append(converting)
                 initial_interrupt_cnt = get_interrupt_cnt()
 
+            # nodes after an "interrupt operation" never run (they land in a
+            # branch guarded by the interrupt flag), but they are converted
+            # like any other node: that is where unsupported ones are refused
             converting.extend((yield node))
-
-            if isinstance(node, (Break, Continue, Return)):
-                # remove nodes after an "interrupt operation"
-                # since they never run
-                break
 
         while len(stack) > 1:
             # wrap nodes with an "if" to check interrupt at run time
